@@ -212,11 +212,26 @@ Theorem C19_slot_user_variable_kept : forall signed h u, e_opts u = None ->
   snd (slot_run signed (Some u) h) = Some u.
 Proof. exact slot_run_keeps_user. Qed.
 
-(* after an in-place modification (which drops the entries) later calls
-   answer for the modified mesh, whatever was asked before *)
-Theorem C19_slot_reflects_modification : forall signed signed' t h o,
-  fst (slot_query signed' (drop_slot (snd (slot_run signed t h))) o) = validate o (signed' (o_mode o)).
+(* after an in-place modification (which drops the entry the library stored and
+   keeps a user's variable of that name) later calls answer what a freshly
+   built mesh equal to the modified one answers, whatever was asked before *)
+Theorem C19_slot_reflects_modification : forall signed signed' t h o, valid_table signed t ->
+  fst (slot_query signed' (drop_slot (snd (slot_run signed t h))) o) = fresh_answer signed' t o.
 Proof. exact slot_after_modification. Qed.
+
+(* every history that mixes calls (any options) and in-place modifications
+   (each may change what the kernels compute): all answers are those of
+   freshly built equal meshes, the user's part of the table is unchanged *)
+Theorem C19_slot_histories_with_modifiers_pure : forall h signed t, valid_table signed t ->
+  fst (run_m signed t h) = spec_m signed t h /\
+  user_part (snd (run_m signed t h)) = user_part t.
+Proof. exact run_m_pure. Qed.
+
+(* a variable named area / volume / metric that the user stored survives every
+   history of queries AND in-place modifications, unchanged *)
+Theorem C19_slot_user_variable_survives_modifiers : forall h signed u, e_opts u = None ->
+  snd (run_m signed (Some u) h) = Some u.
+Proof. exact run_m_keeps_user. Qed.
 
 (* non-vacuity: SlotProofs.ex_run (absolute, signed, other mode, raising and
    absolute again on a mesh with an inverted element: the table is valid and
@@ -225,8 +240,13 @@ Proof. exact slot_after_modification. Qed.
 Example C19_slot_nonvacuous :
   valid_table ex_signed (snd (slot_run ex_signed None ex_hist)) /\
   snd (slot_run ex_signed (Some ex_user) ex_hist) = Some ex_user /\
-  nth 0 (fst (slot_run ex_signed None ex_hist)) Raise <> nth 1 (fst (slot_run ex_signed None ex_hist)) Raise.
-Proof. split; [exact (proj2 ex_run)|]. split; [vm_compute; reflexivity|vm_compute; discriminate]. Qed.
+  nth 0 (fst (slot_run ex_signed None ex_hist)) Raise <> nth 1 (fst (slot_run ex_signed None ex_hist)) Raise /\
+  snd (run_m ex_signed (Some ex_user) ex_mhist) = Some ex_user /\
+  nth 0 (fst (run_m ex_signed None ex_mhist)) Raise <> nth 1 (fst (run_m ex_signed None ex_mhist)) Raise.
+Proof.
+  split; [exact (proj2 ex_run)|]. split; [vm_compute; reflexivity|].
+  split; [vm_compute; discriminate|]. split; [exact (proj2 ex_run_m)|vm_compute; discriminate].
+Qed.
 
 Print Assumptions C19_purity.
 Print Assumptions C19_queries_preserve.
@@ -236,3 +256,5 @@ Print Assumptions C19_slot_history_pure.
 Print Assumptions C19_slot_history_independent.
 Print Assumptions C19_slot_user_variable_kept.
 Print Assumptions C19_slot_reflects_modification.
+Print Assumptions C19_slot_histories_with_modifiers_pure.
+Print Assumptions C19_slot_user_variable_survives_modifiers.
